@@ -258,6 +258,15 @@ fn main() {
       }
       std::fs::write(&a.out, t).expect("write transcript");
     },
+    "probe_reuse" => {
+      let (rt, local) = local_rt();
+      let (log, fails) = local.block_on(&rt, async move { lat_suite::probe_reuse_during_cleanup().await });
+      let mut t = log;
+      for f in &fails {
+        t.push_str(&format!("oracle-failure case=0 {f}\n"));
+      }
+      std::fs::write(&a.out, t).expect("write transcript");
+    },
     "probe_stale" => {
       let (rt, local) = local_rt();
       let variant = a.extra.get("variant").cloned().unwrap_or_else(|| "join".into());
